@@ -16,6 +16,7 @@ from ..core import Clause, Violation
 from ..ref import pixels as refpx
 
 META = {
+    "thorough_scale": 4,
     "level": "exploration",
     "rule": (
         "Hypothesis-generated KittyImage / ITerm2Image renders: source (small palette images in all nine "
